@@ -41,10 +41,15 @@ EXPLANATION = (
     'break/continue/return drops an element (an unfiltered comprehension or a helper that does the looping is followed). '
     'R7 (sibling agreement) a built File made from a target output name is placed in that target\'s get_builddir(), never in its source '
     'sub-directory (.subdir/get_subdir()), which differs under build_subdir: and for build-machine subprojects. '
+    'R7 second clause: no registered build element names an input or dependency by the bare File.fname (the path without its directory). '
+    'R1 has one universal obligation: every accumulation into the order-dep list returned by __generate_sources_structure derives from the '
+    'private-dir root (the consumer waits for the copies, not for their originals). '
     'Absence findings are reported only in a closed world: a value that goes through a callee the analysis did not follow is carried as a '
     'maybe-label and turns the verdict into undecided. '
     'R1 also covers the dyndep writer scripts/depaccumulate.py (providers of linked targets reach the dyndep inputs). '
-    'NOT decided: path-sensitive loss (a dependency list reset on one branch but still used on the other, e.g. modules/i18n.py '
+    'NOT decided: results that differ between the first and later calls of a lazily initialising function (handle_cpp_import_std returning '
+    'the std-module dependency only when it creates the statement); attribute stores on a proxy object instead of the underlying target '
+    '(interpreter/mesonmain.py, needs receiver types); path-sensitive loss (a dependency list reset on one branch but still used on the other, e.g. modules/i18n.py '
     'XgettextProgram.extract - the may-flow merges the branches); loops that legitimately mix searching and collecting; --layout=flat '
     '(declared unsupported by meson); that the listed sources suffice for every project; conditions under which a branch runs (the relation is '
     'path-insensitive); the three A.7 rows that are not necessary for C05 (PHONY for build_always_stale - staleness, not order; '
